@@ -83,13 +83,15 @@ def arg_sets(row, quick, r):
                 # the documented named levels: "OFF" is level 0, "MASK" is 255 (stop fading)
                 yield {"addr": d, "power": 0}, (lambda cls, A, d=d: cls(mk_addr(A, d), "OFF"))
                 yield {"addr": d, "power": 255}, (lambda cls, A, d=d: cls(mk_addr(A, d), "MASK"))
+                yield {"addr": d, "power": 255}, (lambda cls, A, d=d: cls(mk_addr(A, d), "mask".upper()))
+                yield {"addr": d, "power": 0}, (lambda cls, A, d=d: cls(mk_addr(A, d), "".join(["O", "FF"])))
     elif k in ("spc0", "dsp0"):
         yield {}, (lambda cls, A: cls())
     elif k in ("spc1", "dsp1"):
         for p in range(256):
             yield {"param": p}, (lambda cls, A, p=p: cls(p))
     elif k == "spca":
-        for a in list(range(64)) + ["MASK"]:
+        for a in list(range(64)) + ["MASK", "mask".upper()]:
             yield {"address": a}, (lambda cls, A, a=a: cls(a))
     elif k == "init":
         yield {"broadcast": True, "address": None}, (lambda cls, A: cls(broadcast=True))
@@ -155,6 +157,35 @@ def run_rows(desc, tier, seed, res):
                 continue
             res.hit("encode_checked")
             alive.append((obj, want, ref_args))
+            # the object itself - not only its class - carries the row's flags, and so does every copy the standard library
+            # makes of it (copy, deepcopy, a pickle round trip): an application that queues or logs commands sends the copies
+            def flags_of(o):
+                return (type(o), len(o.frame), o.frame.as_integer, bool(o.sendtwice), o.devicetype, o.response is None, bool(o.is_query))
+            want_flags = (cls, row.width, want, row.twice, row.dt, row.answer == "none", row.answer != "none")
+            subjects = [("constructed", obj)]
+            if n_args <= 3:
+                import copy
+                import pickle
+                for how, fn in (("copy", copy.copy), ("deepcopy", copy.deepcopy), ("pickle", lambda o: pickle.loads(pickle.dumps(o)))):
+                    try:
+                        subjects.append((how, fn(obj)))
+                        res.hit("clones_checked")
+                    except Exception as e:
+                        res.observe(f"command-{how}-raises-{type(e).__name__}", row.lib)
+            for how, o in subjects:
+                try:
+                    gf = flags_of(o)
+                except Exception as e:
+                    res.violation(f"C03/instance-flags-raised/{row.lib}", f"{row.name} {ref_args} ({how}): reading the flags raised "
+                                  f"{type(e).__name__}: {e}", {"row": row.lib, "how": how})
+                    continue
+                if gf != want_flags:
+                    names = ("class", "width", "frame", "sendtwice", "devicetype", "no answer", "is_query")
+                    diff = {n_: (g_ if n_ != "class" else g_.__name__, w_ if n_ != "class" else w_.__name__)
+                            for n_, g_, w_ in zip(names, gf, want_flags) if g_ != w_}
+                    res.violation(f"C03/instance-flags/{how}/{row.lib}", f"{row.name} {ref_args}: the {how} object has (got, table) "
+                                  f"{diff}", {"row": row.lib, "how": how, "args": repr(ref_args)})
+                    break
             wb = want.to_bytes(row.width // 8, "big")
             try:
                 pk, seq = obj.frame.pack, obj.frame.as_byte_sequence
@@ -183,6 +214,16 @@ def run_rows(desc, tier, seed, res):
                               f"{type(back).__module__}.{type(back).__name__}",
                               {"row": row.lib, "frame": want, "decoded": str(back)})
                 continue
+            # What a frame that is no application extended command decodes to under a foreign device type is recorded, not
+            # judged: the pinned library already reads standard commands as 'unknown' there (its opcode table is keyed by
+            # (device type, opcode)), and C03 only speaks of decoding a command under its own device type.
+            if row.dt == 0 and not (row.width == 16 and row.kind in ("std", "stdn") and row.opcode >= 224) and n_args <= 2:
+                try:
+                    b2 = command.from_frame(frame.ForwardFrame(row.width, want), devicetype=6)
+                    if type(b2) is not cls:
+                        res.observe(f"{row.kind}-command-under-foreign-device-type-decodes-as-{type(b2).__name__}", row.lib)
+                except Exception as e:
+                    res.observe(f"decode-under-foreign-device-type-raises-{type(e).__name__}", row.lib)
             ba = args_of(back)
             exp = dict(ref_args)
             if row.kind == "init":
